@@ -67,9 +67,14 @@ class LineCancel:
             self.count += 1
             if self.at is not None and not self.fired and self.count >= self.at:
                 import signal as _signal
-                if _signal.getsignal(_signal.SIGINT) is not _signal.default_int_handler:
-                    # the code under test has replaced / postponed the SIGINT handler: no KeyboardInterrupt can be
-                    # delivered at this point of a real run - the cancellation arrives at the next point where it can
+                try:
+                    masked = _signal.SIGINT in _signal.pthread_sigmask(_signal.SIG_BLOCK, ())
+                except (AttributeError, ValueError, OSError):
+                    masked = False
+                if masked or _signal.getsignal(_signal.SIGINT) is not _signal.default_int_handler:
+                    # the code under test has replaced / postponed the SIGINT handler or blocked the signal in this
+                    # thread's mask: no KeyboardInterrupt can be delivered at this point of a real run - the
+                    # cancellation arrives at the next point where it can
                     self.deferred += 1
                     return None
                 self.fired = True
@@ -303,7 +308,13 @@ def run_command(argv, embedded=False):
 
     def _simulated_exit(status=0):          # os._exit() would take the simulator down with it
         raise SystemExit(status)
-    sys.argv = list(argv)
+    if embedded:
+        # a process has ONE sys.argv list object for its whole life (a `def main(argv=sys.argv)` default binds it at
+        # import): the command line of the next command of a history goes INTO that list
+        old = list(sys.argv)
+        sys.argv[:] = list(argv)
+    else:
+        sys.argv = list(argv)
     os._exit = _simulated_exit
     entry = None
     if embedded:
@@ -322,7 +333,10 @@ def run_command(argv, embedded=False):
                 runpy.run_module("graphtage", run_name="__main__", alter_sys=False)
                 ret = None                 # fell off the end of the module: exit status 0
         finally:
-            sys.argv = old
+            if embedded:
+                sys.argv[:] = old
+            else:
+                sys.argv = old
             os._exit = old_exit
             try:
                 sys.setrecursionlimit(old_limit)
